@@ -116,6 +116,15 @@ func evalAffine(t *Term, n affine) (affine, string) {
 				}
 			}
 			return affine{}, "mask outside the domain"
+		case "&^":
+			// x &^ (2^k-1) == x - x % 2^k for x >= 0
+			if y.A.Sign() == 0 && x.A.Sign() >= 0 && x.B.Sign() >= 0 {
+				m := new(big.Int).Add(y.B, big.NewInt(1))
+				if m.Sign() > 0 && new(big.Int).And(m, y.B).Sign() == 0 && new(big.Int).Rem(x.A, m).Sign() == 0 {
+					return affine{new(big.Int).Set(x.A), new(big.Int).Sub(x.B, new(big.Int).Rem(x.B, m))}, ""
+				}
+			}
+			return affine{}, "mask outside the domain"
 		}
 	}
 	return affine{}, "term outside the affine domain: " + clip(t.String(), 120)
@@ -503,17 +512,55 @@ func c20Unpad(p *Prog, r *Report, rule string, fn *ssa.Function) {
 			continue
 		}
 		base, off, ln, okV := rg.viewOf(cv.X)
-		nPrefix++
 		want := pos.addConst(1)
-		switch {
-		case !okV || base != ssa.Value(prm):
+		if !okV || base != ssa.Value(prm) {
+			nPrefix++
 			okRet, detail = false, "a result at "+p.Pos(rp.Ret.Pos())+" is not a view of the input"
-		case !(len(off.c) == 0 && off.k.Sign() == 0):
+			continue
+		}
+		if !(len(off.c) == 0 && off.k.Sign() == 0) {
+			nPrefix++
 			okRet, detail = false, "the result does not start at the first byte"
-		case !(rg.entails(facts, ln.minus(want)) && rg.entails(facts, want.minus(ln))):
-			okRet, detail = false, "the result has length "+ln.Short()+", required "+want.Short()+" (up to and including the non-zero byte found)"
-		case !isZeroFact(rp.Facts, false):
-			okRet, detail = false, "the prefix is returned at "+p.Pos(rp.Ret.Pos())+" without the byte at its end having been found non-zero"
+			continue
+		}
+		// the two ways out of the scan may share one return (for e >= 0 && p[e] == 0 { e-- }):
+		// judge each way in separately
+		type way struct {
+			atoms []Atom
+			lins  []Lin
+		}
+		var ways []way
+		if rp.Block == blk && len(blk.Preds) > 1 {
+			for _, pr := range blk.Preds {
+				if rg.s.ff.dead[pr] || rg.s.ff.deadEdge[[2]*ssa.BasicBlock{pr, blk}] {
+					continue
+				}
+				at := rg.s.ff.AtEdge(pr, blk)
+				var ls []Lin
+				for _, a := range at {
+					ls = append(ls, rg.cmpFact(a)...)
+				}
+				ways = append(ways, way{at, ls})
+			}
+		} else {
+			ways = []way{{rp.Facts, facts}}
+		}
+		for _, w := range ways {
+			if rg.entails(w.lins, pos.scale(-1).addConst(-1)) {
+				// the scan passed the first byte: the prefix returned must be empty
+				nEmpty++
+				if !rg.entails(w.lins, ln.scale(-1)) {
+					okRet, detail = false, "after the scan passed the first byte the result at "+p.Pos(rp.Ret.Pos())+" has length "+ln.Short()+", required 0"
+				}
+				continue
+			}
+			nPrefix++
+			switch {
+			case !(rg.entails(w.lins, ln.minus(want)) && rg.entails(w.lins, want.minus(ln))):
+				okRet, detail = false, "the result has length "+ln.Short()+", required "+want.Short()+" (up to and including the non-zero byte found)"
+			case !isZeroFact(w.atoms, false):
+				okRet, detail = false, "the prefix is returned at "+p.Pos(rp.Ret.Pos())+" without the byte at its end having been found non-zero"
+			}
 		}
 	}
 	r.Check(okRet && nEmpty > 0 && nPrefix > 0, rule, "results: prefix ending at the non-zero byte found, or \"\" when the scan passed the first byte", p.Pos(fn.Pos()), fmt.Sprintf("%d empty, %d prefix return(s)", nEmpty, nPrefix), firstNonEmpty(detail, "missing empty or prefix return"))
@@ -746,6 +793,8 @@ func evalAffineV(s *Sym, v ssa.Value, n affine, depth int) (affine, string) {
 			return bin("%", a, b)
 		case token.AND:
 			return bin("&", a, b)
+		case token.AND_NOT:
+			return bin("&^", a, b)
 		case token.SHL, token.SHR:
 			if b.A.Sign() == 0 && b.B.Sign() >= 0 && b.B.Cmp(big.NewInt(31)) < 0 {
 				pw := affine{big.NewInt(0), new(big.Int).Lsh(big.NewInt(1), uint(b.B.Int64()))}
